@@ -584,6 +584,42 @@ def run_render(pid, tier, t0):
                   "patterns in these scenarios are literals / wildcards (other patterns against reference arguments do not compile: autoref ambiguity)"], t0, divs)
 
 
+def run_forward(pid, tier, t0):
+    import gen, gen_c05
+    fam = "Q" if tier == "quick" else "T"
+    inst = {"module": "MC_Forward", "spec": "Spec", "constants": {"Fam": '"%s"' % fam, "EmitOn": True}, "invariants": ["ViewsAgree", "Emit"]}
+    r, cases = gen.tlc_cases(inst, "forward_" + pid.lower(), timeout=1800)
+    total = len(cases)
+    if tier == "quick":
+        cases = gen_c05.sample(cases, 220, vf.seed())
+    else:
+        cases = gen_c05.sample(cases, 2500, vf.seed())
+    divs = []
+    n = 0
+    samples = []
+    # several crates keep single compilation units small
+    chunk = 450
+    for k in range(0, len(cases), chunk):
+        part = cases[k:k + chunk]
+        main_rs, exp = gen_c05.render(part)
+        name = "gen_c05_%d" % (k // chunk)
+        gen.write_crate(name, main_rs)
+        obs, info = gen.build_and_run(name, timeout=3000)
+        if obs is None:
+            errs, _ = gen.check_errors(name)
+            log(str(info)[-2000:])
+            raise ToolError("generated forwarding program does not build/run (%d compile errors; first: %s)" % (len(errs), errs[:2]))
+        d = gen_c05.compare(exp, obs)
+        divs += [{"what": x["what"], "step": 0, "expected": x["expected"], "observed": x["observed"], "beh": {"kind": "generated-case", "case": x["exp"]}, "in_scope": True} for x in d]
+        n += len(exp)
+        samples += [{"signature": e["sig"], "api": e["shape"]["api"], "matcher_sees": e["matcher"], "answer_gets": e["answer"], "after": e["after"]} for e in list(exp.values())[:3]]
+    cov = {"evaluations": n, "distinct_nontrivial": n, "programs": n, "states": r["distinct"], "transitions": r["generated"], "traces_validated_against_impl": n,
+           "valid_shapes_in_grammar": total, "exhaustive": n == total, "samples": samples[:4],
+           "rule": "TLC enumerates the valid shapes of tla/Shapes.tla (receiver x parameter list (arity 0-5 over 12 kinds) x return kind x {sync, async fn, -> impl Future} x {module, flattened, hidden api} x method generics) with the expected matcher view, answer view, &mut write-back and return rendering (Forward); quick = a seeded subset covering all pairs of dimensions, thorough = up to 2500 shapes; each shape becomes one trait with pairwise-distinct argument values, a recording matcher guard and a recording answer (hidden api: the registered real function); async shapes additionally check nothing is evaluated before the first poll or when the future is dropped unpolled"}
+    return finish(pid, tier, "exploration", cov, ["shapes outside the grammar (impl Trait parameters, associated futures, exotic lifetimes) are not covered",
+                  "a shape the model calls valid that does not compile is a tool error (exit 2)"], t0, divs)
+
+
 COMMON_ASSUME = [
     "argument domain is a small finite set; matchers are total and side-effect free",
     "expectations are produced by TLC from tla/Mock.tla; the harness only compares observables (return ids, panic classes, verification lines, drop counters)",
@@ -644,6 +680,8 @@ def run_property(pid, tier, t0):
         return run_c14(pid, tier, t0)
     if pid == "C06":
         return run_matching(pid, tier, t0, "C06")
+    if pid == "C05":
+        return run_forward(pid, tier, t0)
     if pid == "C19":
         return composite(pid, tier, t0, [("call / argument / pattern rendering per error kind (Shapes.tla Render)", lambda: run_render(pid, tier, t0)),
                                          ("mismatch positions of guard-free single-alternative patterns (Matching.tla MismatchPositions)", lambda: run_matching(pid, tier, t0, "C19"))])
